@@ -77,6 +77,9 @@ def main(argv=None) -> int:
     except ValueError:
         seed = 1
 
+    import warnings
+
+    warnings.filterwarnings("ignore")
     t0 = time.time()
     try:
         mod = import_module(f"props.{prop_id.lower()}")
